@@ -164,10 +164,10 @@ def check_export_text(text, m, params, sid):
             return 'line %r does not split into %d tab-separated fields' \
                 % (ln, nf)
         if i < ntok:
-            if re.match(r'^#\d+$', f[0]):
+            if re.match(r'^#\d{3}$', f[0]):
                 return 'constituent line among the first %d (token) lines' % ntok
         else:
-            mm = re.match(r'^#(\d+)$', f[0])
+            mm = re.match(r'^#(\d{3})$', f[0])
             if not mm:
                 return 'token line after the constituents: %r' % ln
             if int(mm.group(1)) != prev_num + 1:
@@ -369,7 +369,7 @@ def word_pool(rng):
     if r < 0.9:
         return gen.WORDS_ASCII + gen.WORDS_TABSTOP
     return gen.WORDS_ASCII + gen.WORDS_XML + gen.WORDS_NONASCII + \
-        gen.WORDS_PAREN + gen.WORDS_TABSTOP + gen.PUNCT
+        gen.WORDS_PAREN + gen.WORDS_TABSTOP + gen.PUNCT + gen.WORDS_HASH
 
 
 def make_tree(rng, small=False):
